@@ -349,6 +349,36 @@ def rule_faithful(R):
                         if n2[-2:] == ["@Ok", "0"] and si2["edges"].get(True) is not None:
                             tru = pcode.must_pass([0], [bb], via_edges=[(sbb, si2["edges"][True])])[0]
                     okp = okp and tru
+    if len(hc) == 1 and not okp:
+        # read per path: the function returns Ok(Some(len)) only on paths that took the Ok edge of the handler's result and
+        # the true edge of a test of its payload (`Ok(true) => ..`, `if delivered { .. }`, `delivered.then_some(len)`)
+        res = pcode.result_switches(lambda x: peel(x)[0] == "call" and peel(x)[1] == hc[0].bb)
+        ok_edges = set((si["bb"], si["edges"]["Ok"]) for si in res if si["edges"].get("Ok") is not None)
+        tru_edges = set()
+        for sbb in pcode.switches:
+            si2 = pcode.switch_info(sbb)
+            r2, n2 = chain(si2["subject"])
+            if n2[-2:] == ["@Ok", "0"] and isinstance(peel(r2), tuple) and peel(r2)[0] == "call" and peel(r2)[1] == hc[0].bb \
+                    and si2["edges"].get(True) is not None:
+                tru_edges.add((sbb, si2["edges"][True]))
+        some_paths = 0
+        good = bool(ok_edges) and bool(tru_edges)
+        for lf in paths.explore(pcode, 0, lambda t_: False, lambda b_, x_: False, max_paths=4000):
+            if lf["kind"] == "limit":
+                good = False
+            if lf["kind"] != "return":
+                continue
+            v = paths.value_on_path(pcode, lf["path"], 0)
+            if v is None or not (v[0] == "agg" and v[3] == "Ok" and v[5]):
+                continue
+            inner = peel(v[5][0])
+            if inner[0] == "agg" and inner[3] == "Some":
+                some_paths += 1
+                p_ = lf["path"]
+                es = set((p_[i], p_[i + 1]) for i in range(len(p_) - 1))
+                if not (es & ok_edges and es & tru_edges and any(is_call(x, "take_packet") for x in walk(inner[5][0]))):
+                    good = False
+        okp = good and some_paths >= 1
     R.ob("faithful/deliver-only-on-true", okp,
          "process_received_packet reports an inbound message (with the length returned by take_packet) only when the "
          "handler returned Ok(true)", where=pb.span)
